@@ -22,6 +22,28 @@ type faultStore struct {
 	calls   int
 	fired   bool
 	firedOn string
+	// park mode (concurrent pairs): the k-th storage call blocks until released; calls made meanwhile pass through uncounted
+	parkAt int
+	parked chan struct{}
+	gate   chan struct{}
+}
+
+// armPark: the parkAt-th storage call from now on parks (one-shot)
+func (f *faultStore) armPark(parkAt int) (parked chan struct{}) {
+	f.mu.Lock()
+	defer f.mu.Unlock()
+	f.armed, f.failAt, f.calls, f.fired, f.firedOn = true, 0, 0, false, ""
+	f.parkAt, f.parked, f.gate = parkAt, make(chan struct{}), make(chan struct{})
+	return f.parked
+}
+func (f *faultStore) release() {
+	f.mu.Lock()
+	g := f.gate
+	f.gate, f.parkAt, f.armed = nil, 0, false
+	f.mu.Unlock()
+	if g != nil {
+		close(g)
+	}
 }
 
 func (f *faultStore) arm(failAt int) {
@@ -37,6 +59,19 @@ func (f *faultStore) disarm() (calls int, fired bool, on string) {
 }
 func (f *faultStore) hit(op, key string) bool {
 	f.mu.Lock()
+	if f.armed && f.parkAt > 0 {
+		f.calls++
+		if f.calls == f.parkAt {
+			g := f.gate
+			f.armed, f.firedOn = false, op+" "+key // later calls (the other command's) pass through
+			close(f.parked)
+			f.mu.Unlock()
+			<-g
+			return false
+		}
+		f.mu.Unlock()
+		return false
+	}
 	defer f.mu.Unlock()
 	if !f.armed {
 		return false
